@@ -48,7 +48,9 @@ const (
 	vSilent
 )
 
-func (v verdict) String() string { return [...]string{"valid", "benign", "hostile", "own-valid", "unspecified"}[v] }
+func (v verdict) String() string {
+	return [...]string{"valid", "benign", "hostile", "own-valid", "unspecified"}[v]
+}
 
 type variant struct {
 	class   string // stable class name (part of violation keys)
@@ -371,7 +373,9 @@ func variants(s *seed, rnd *rand.Rand, bulk int) []variant {
 		}
 		out = append(out, v)
 	}
-	add := func(class, name, tok string, v verdict) { emit(variant{class: class, name: name, token: tok, verdict: v}) }
+	add := func(class, name, tok string, v verdict) {
+		emit(variant{class: class, name: name, token: tok, verdict: v})
+	}
 	keep := func(h map[string]any) string { return encHdr(h) + "." + t.paySeg + "." + t.sigSeg } // header replaced, signature kept
 	origAlg, _ := t.hdr["alg"].(string)
 	with := func(kv ...any) map[string]any {
